@@ -102,7 +102,7 @@ func VH_C16_query() {
 	pol := policies(vU32("pol"))
 	max := 4
 	if vTier() == 1 {
-		max = 6
+		max = 5
 	}
 	n := vChoose("n", max+1)
 	suffix := vBytes("s", n)
